@@ -62,7 +62,9 @@ func main() {
 	var ids []string
 	if *prop == "all" {
 		for id := range registry {
-			ids = append(ids, id)
+			if id != "DBG" {
+				ids = append(ids, id)
+			}
 		}
 		sort.Strings(ids)
 	} else {
